@@ -52,6 +52,8 @@ impl Writer {
     }
 
     pub(super) fn write(&self, data: &[u8]) -> std::io::Result<()> {
+        #[cfg(walrus_verif)]
+        crate::wal::verif::sched_point("write:entry");
         // Check if batch write is in progress
         if self.is_batch_writing.load(Ordering::Acquire) {
             return Err(std::io::Error::new(
@@ -187,6 +189,8 @@ impl Writer {
             return Ok(());
         }
 
+        #[cfg(walrus_verif)]
+        crate::wal::verif::sched_point("batch_write:before_flag");
         // Try to acquire batch write flag
         if self
             .is_batch_writing
@@ -211,6 +215,8 @@ impl Writer {
             total_bytes
         );
 
+        #[cfg(walrus_verif)]
+        crate::wal::verif::sched_point("batch_write:after_flag");
         // Phase 1: Pre-allocation & Planning
         let mut block = self.current_block.lock().map_err(|_| {
             std::io::Error::new(std::io::ErrorKind::Other, "current_block lock poisoned")
